@@ -1,5 +1,130 @@
-import S3V.Model.SigV4
-import S3V.Spec.SigV4
-/-! # C06 (placeholder while the theorems are being written) -/
+import S3V.Thm.SigV4Presigned
+import S3V.Thm.SigV4Calendar
+/-!
+# C06 — SigV4 presigned URLs: correctly signed and inside their window (property theorems only)
+
+`now` (nanoseconds since the epoch), the hash and the MAC are parameters: every statement holds for all times and
+arbitrary functions. No bound on the number or size of parameters and headers.
+-/
 namespace S3V.C06
+open S3V S3V.SigV4
+
+/-- the verdict logic, exactly (no well-formedness hypothesis): `v4_check_presigned_url` accepts, and attributes the
+    request to the access key / region / service of `X-Amz-Credential`, iff the six parameters parse, the algorithm
+    is AWS4-HMAC-SHA256, `x-amz-content-sha256` (if present) is admissible, the date is a calendar instant, the key
+    is known, `now` lies in `[date − 900 s, date + expires]`, and the recomputed signature is the presented one -/
+theorem C06_accept_conditions (sha256hex : Bytes → Bytes) (hmac : Bytes → Bytes → Bytes)
+    (look : Bytes → Option Bytes) (nowNs : Int) (c : Ctx) (ak region service : Bytes) :
+    v4CheckPresignedUrl sha256hex hmac (some look) nowNs c = .accept ak region service ↔
+      ∃ p secret date, PresignedChecks look c p secret date ∧
+        p.credential.accessKey = ak ∧ p.credential.region = region ∧ p.credential.service = service ∧
+        SigV4Spec.inWindow nowNs date p.expires ∧
+        presignedSignature sha256hex hmac c p secret = p.signature :=
+  presigned_accept_iff sha256hex hmac look nowNs c ak region service
+
+/-- the two comparisons of the code (`duration < 0 ∧ |duration| > 15 min` refused, `duration > expires` refused) are
+    exactly the window of the property, edges included, at nanosecond resolution -/
+theorem C06_window_exact (nowNs date : Int) (expires : Nat) :
+    (¬ ((nowNs - date * 1000000000 < 0 && -(nowNs - date * 1000000000) > 900 * 1000000000) = true) ∧
+     ¬ (nowNs - date * 1000000000 > (expires : Int) * 1000000000)) ↔ SigV4Spec.inWindow nowNs date expires :=
+  window_iff nowNs date expires
+
+/-- FULL statement: accepted iff the signature is the specified one over method, path, all other query parameters
+    and the signed headers, under the credential's scope, and `now` is inside the window. False on the unchanged
+    tree for the canonicalisation classes shared with C05 (`Findings.C05`) and when the scope date of
+    `X-Amz-Credential` is not the day of `X-Amz-Date` (the code derives scope and key from `X-Amz-Date`). -/
+def C06_presigned_iff_full : Prop :=
+  ∀ (sha256hex : Bytes → Bytes) (hmac : Bytes → Bytes → Bytes) (look : Bytes → Option Bytes) (nowNs : Int) (c : Ctx)
+    (raw : List (Bytes × Bytes)) (ak region service : Bytes), orderedHeaders raw = some c.hs →
+    (v4CheckPresignedUrl sha256hex hmac (some look) nowNs c = .accept ak region service ↔
+      ∃ p secret date, PresignedChecks look c p secret date ∧
+        p.credential.accessKey = ak ∧ p.credential.region = region ∧ p.credential.service = service ∧
+        SigV4Spec.inWindow nowNs date p.expires ∧
+        p.signature = SigV4Spec.signature sha256hex hmac secret p.amzDate.fmtIso8601
+          ⟨p.credential.date, region, service⟩
+          (SigV4Spec.presignedRequest c.method c.path c.qs raw p.signedHeaders))
+
+/-- WF of a presigned context: `wfPresignedCtx` (signed headers present once without inner space runs, duplicate
+    parameter names with ascending values, `X-Amz-SignedHeaders` sorted) and the credential scope names the day of
+    `X-Amz-Date` -/
+def wfPresignedScope (c : Ctx) (raw : List (Bytes × Bytes)) : Bool :=
+  wfPresignedCtx c raw &&
+  match parsePresigned c.qs with
+  | none => true
+  | some p => p.credential.date = p.amzDate.fmtDate
+
+/-- for every context outside the finding classes, all times `now`, arbitrary hash and MAC -/
+theorem C06_presigned_iff_partial (sha256hex : Bytes → Bytes) (hmac : Bytes → Bytes → Bytes)
+    (look : Bytes → Option Bytes) (nowNs : Int) (c : Ctx) (raw : List (Bytes × Bytes)) (ak region service : Bytes)
+    (hraw : orderedHeaders raw = some c.hs) (hwf : wfPresignedScope c raw = true) :
+    v4CheckPresignedUrl sha256hex hmac (some look) nowNs c = .accept ak region service ↔
+      ∃ p secret date, PresignedChecks look c p secret date ∧
+        p.credential.accessKey = ak ∧ p.credential.region = region ∧ p.credential.service = service ∧
+        SigV4Spec.inWindow nowNs date p.expires ∧
+        p.signature = SigV4Spec.signature sha256hex hmac secret p.amzDate.fmtIso8601
+          ⟨p.credential.date, region, service⟩
+          (SigV4Spec.presignedRequest c.method c.path c.qs raw p.signedHeaders) := by
+  simp only [wfPresignedScope, Bool.and_eq_true] at hwf
+  obtain ⟨hwf1, hwf2⟩ := hwf
+  rw [presigned_verdict_iff_spec sha256hex hmac look nowNs c raw ak region service hraw hwf1]
+  constructor
+  · rintro ⟨p, secret, date, hc, h1, h2, h3, hw, hs⟩
+    rw [hc.parsed] at hwf2
+    have hd : p.credential.date = p.amzDate.fmtDate := by simpa using hwf2
+    exact ⟨p, secret, date, hc, h1, h2, h3, hw, by rw [hd]; exact hs⟩
+  · rintro ⟨p, secret, date, hc, h1, h2, h3, hw, hs⟩
+    rw [hc.parsed] at hwf2
+    have hd : p.credential.date = p.amzDate.fmtDate := by simpa using hwf2
+    exact ⟨p, secret, date, hc, h1, h2, h3, hw, by rw [← hd]; exact hs⟩
+
+/-- every query parameter other than `X-Amz-Signature` — expiry, date, credential, signed-header list included — is
+    part of the signed view (in its encoded form) -/
+theorem C06_every_query_param_bound (method path : Bytes) (qs headers : List (Bytes × Bytes)) (signed : List Bytes)
+    {k v : Bytes} (hmem : (k, v) ∈ qs) (hk : k ≠ SigV4Spec.xAmzSignature) :
+    (SigV4Spec.uriEncode false k, SigV4Spec.uriEncode false v) ∈
+      (signedView (SigV4Spec.presignedRequest method path qs headers signed)).query :=
+  param_in_view method path qs headers signed hmem hk
+
+/-- so a URL in which such a parameter no longer occurs with that value has another signed view (and, by
+    `C05_tamper_changes_signature`, another specified signature unless hash or MAC collide on the two messages) -/
+theorem C06_param_change_changes_view (method path : Bytes) (qs qs' headers headers' : List (Bytes × Bytes))
+    (signed signed' : List Bytes) {k v : Bytes} (hmem : (k, v) ∈ qs) (hk : k ≠ SigV4Spec.xAmzSignature)
+    (hnot : (k, v) ∉ qs') :
+    signedView (SigV4Spec.presignedRequest method path qs headers signed) ≠
+      signedView (SigV4Spec.presignedRequest method path qs' headers' signed') :=
+  param_change_changes_view method path qs qs' headers headers' signed signed' hmem hk hnot
+
+/-- a URL in which one of the six `X-Amz-*` authentication parameters is missing or occurs more than once is
+    refused with InvalidRequest, whatever else it contains and whatever the time (`c.qs` is the sorted list
+    `OrderedQs::parse` produces) -/
+theorem C06_duplicate_or_missing_xamz_rejected (sha256hex : Bytes → Bytes) (hmac : Bytes → Bytes → Bytes)
+    (lookup : Option (Bytes → Option Bytes)) (nowNs : Int) (c : Ctx) (hsorted : SortedBy c.qs)
+    (name : Bytes) (hname : name ∈ xAmzNames) (hcount : (c.qs.filter fun p => p.1 = name).length ≠ 1) :
+    v4CheckPresignedUrl sha256hex hmac lookup nowNs c = .err .InvalidRequest := by
+  unfold v4CheckPresignedUrl
+  rw [parsePresigned_none hname (getUnique_none_of_count hsorted hcount)]
+
+/-- the sorted list the previous theorem assumes is what `OrderedQs::parse` yields -/
+theorem C06_ordered_qs_sorted (query : Bytes) : SortedBy (orderedQs query) := sortByFirst_sorted _
+
+/-- calendar: `AmzDate::to_time` (Hinnant's era algorithm, the model of `time::Date`) is the instant the counting
+    definition of the proleptic Gregorian calendar assigns — days in whole years + days in whole months + day — and
+    exists exactly for valid civil times; for every year 0…9999 and beyond (no bound) -/
+theorem C06_to_time_correct (d : AmzDate) :
+    d.toTime = if SigV4Spec.validCivil d.year d.month d.day d.hour d.minute d.second = true then
+      some (SigV4Spec.civilToUnix d.year d.month d.day d.hour d.minute d.second) else none :=
+  toTime_eq_spec d
+
+/-- the underlying day count -/
+theorem C06_days_from_civil (y m d : Nat) (h1 : 1 ≤ m) (h2 : m ≤ 12) (h3 : 1 ≤ d) :
+    daysFromCivil y m d =
+      ((SigV4Spec.daysBeforeYear y + SigV4Spec.daysBeforeMonth y m + (d - 1) : Nat) : Int) - 719528 :=
+  daysFromCivil_eq y m d h1 h2 h3
+
+/-! non-vacuity -/
+example : SigV4Spec.inWindow (1369353600 * 1000000000 + 5) 1369353600 86400 := by decide
+example : ¬ SigV4Spec.inWindow ((1369353600 - 901) * 1000000000) 1369353600 86400 := by decide
+example : (⟨2013, 5, 24, 0, 0, 0⟩ : AmzDate).toTime = some 1369353600 := by decide
+example : (⟨2023, 2, 29, 0, 0, 0⟩ : AmzDate).toTime = none := by decide
+
 end S3V.C06
